@@ -33,6 +33,9 @@ pub struct Scenario {
     pub rounds: Vec<Round>,
     /// differential only: states to put on the terminals as well
     pub with_states: bool,
+    /// offset of all command timestamps (so that i64::MIN itself and negative times occur)
+    #[serde(default)]
+    pub time_base: i64,
 }
 
 struct Node {
@@ -125,8 +128,8 @@ pub fn check(s: &Scenario) -> CheckResult {
                 continue;
             }
             let j = is.term as usize % n;
+            let time = s.time_base + (ri as i64) * 70_000_000 + (is.ts as i64) * 1000 + counter;
             counter += 1;
-            let time = (ri as i64) * 70_000_000 + (is.ts as i64) * 1000 + counter;
             let d = Datum::new(Time(time), Command::new(pd(is.kind), is.value));
             let ext = match (is.external, nodes[k].ext[j]) {
                 (true, Some(e)) => {
@@ -242,7 +245,7 @@ fn one_dof() -> BoxedStrategy<DevSpec> {
     prop_oneof![3 => Just(DevSpec::Invert), 4 => ratio_strategy().prop_map(DevSpec::Gear), 1 => proptest::collection::vec((1u32..200).prop_map(|x| x as f32), 2..=6).prop_map(DevSpec::GearTeeth), 3 => (2u8..=6).prop_map(DevSpec::Axle)].boxed()
 }
 fn issue() -> BoxedStrategy<Issue> {
-    (0u8..5, 0u8..6, any::<bool>(), 0u8..3, gen::wide(), any::<u16>()).prop_map(|(dev, term, external, kind, value, ts)| Issue { dev, term, external, kind, value, ts }).boxed()
+    (0u8..5, 0u8..6, any::<bool>(), 0u8..3, gen::wide(), prop_oneof![1 => Just(0u16), 1 => Just(1u16), 4 => any::<u16>()]).prop_map(|(dev, term, external, kind, value, ts)| Issue { dev, term, external, kind, value, ts }).boxed()
 }
 fn round() -> BoxedStrategy<Round> {
     (proptest::collection::vec(issue(), 0..=4), prop_oneof![3 => Just(0u8), 1 => Just(1u8), 1 => Just(2u8)], proptest::collection::vec(0u8..5, 0..5)).prop_map(|(issues, order, perm)| Round { issues, order, perm }).boxed()
@@ -254,9 +257,10 @@ impl Property for C13 {
     const RULE: &'static str = "chains of 1..5 one-DOF devices (Invert, GearTrain by ratio in +-[1e-2,1e2] or tooth list, Axle<1..6>) joined terminal to terminal, free terminals connected to external terminals; 1..8 rounds, each issuing 0..4 commands (any kind, finite value, globally distinct timestamps in random age order) on device terminals or external terminals, then updating all devices in chain order, reverse order or a random permutation; plus a differential with commands (and optionally states) on its terminals. Oracle per device update, relative to the command reads just before it: every terminal afterwards reads the most recently issued command among those present, with the issuer's timestamp and kind and the value mapped issuer side -> reader side (negate / x ratio / : ratio / identity) within 2 ulp; after an in-order pass the far end of the chain reads the globally newest command scaled by the product of the ratios (2 ulp per hop); a differential leaves command slots and reads bit-identical. Non-trivial = competing commands with different timestamps at one device, or a chain of >= 3 devices; distinct = (device chain, per-round issue pattern and update order).";
     type Scenario = Scenario;
     fn strategy(_tier: Tier) -> BoxedStrategy<Scenario> {
-        let chain = (proptest::collection::vec(one_dof(), 1..=5), proptest::collection::vec(round(), 1..=8)).prop_map(|(devs, rounds)| Scenario { devs, rounds, with_states: false });
-        let single_axle1 = (proptest::collection::vec(round(), 1..=4)).prop_map(|rounds| Scenario { devs: vec![DevSpec::Axle(1)], rounds, with_states: false });
-        let diff = ((0u8..4), proptest::collection::vec(round(), 1..=6), any::<bool>()).prop_map(|(mode, rounds, with_states)| Scenario { devs: vec![DevSpec::Diff(mode)], rounds, with_states });
+        let base = || prop_oneof![4 => Just(0i64), 2 => Just(i64::MIN), 1 => -100_000i64..0, 1 => any::<i64>().prop_map(|t| t.clamp(i64::MIN, i64::MAX - 1_000_000_000))];
+        let chain = (proptest::collection::vec(one_dof(), 1..=5), proptest::collection::vec(round(), 1..=8), base()).prop_map(|(devs, rounds, time_base)| Scenario { devs, rounds, with_states: false, time_base });
+        let single_axle1 = (proptest::collection::vec(round(), 1..=4)).prop_map(|rounds| Scenario { devs: vec![DevSpec::Axle(1)], rounds, with_states: false, time_base: 0 });
+        let diff = ((0u8..4), proptest::collection::vec(round(), 1..=6), any::<bool>()).prop_map(|(mode, rounds, with_states)| Scenario { devs: vec![DevSpec::Diff(mode)], rounds, with_states, time_base: 0 });
         prop_oneof![8 => chain, 1 => single_axle1, 2 => diff].boxed()
     }
     fn cases(tier: Tier) -> u32 {
@@ -264,6 +268,12 @@ impl Property for C13 {
     }
     fn check(s: &Scenario) -> CheckResult {
         check(s)
+    }
+    fn valid(s: &Scenario) -> bool {
+        let m = s.devs.len();
+        let one_dof = |d: &DevSpec| !matches!(d, DevSpec::Diff(_)) && crate::c08::dev_valid(d);
+        let shape = if m == 1 { crate::c08::dev_valid(&s.devs[0]) && !matches!(s.devs[0], DevSpec::Axle(0)) } else { (2..=5).contains(&m) && s.devs.iter().all(|d| one_dof(d) && d.terminals() >= 2) };
+        shape && s.time_base <= i64::MAX - 1_000_000_000 && (1..=8).contains(&s.rounds.len()) && s.rounds.iter().all(|r| r.issues.len() <= 4 && r.perm.len() <= 5 && r.issues.iter().all(|i| dom::wide(i.value)))
     }
     fn assumptions() -> Vec<String> {
         vec!["issued commands carry globally distinct timestamps (as the quantifier states); propagated copies of one command may tie, any tied copy is accepted as the winner".into(), "value mapping is checked to 2 ulp per hop, kind and timestamp exactly".into()]
